@@ -392,6 +392,20 @@ ImposeUnweighted(j) ==
     /\ Remaining(weights, sel.zero) # Zero
     /\ Surgery("impose_unweighted", j, sel.zero, [i \in 1..N |-> IF i \in sel.zero THEN Zero ELSE weights[i]], samples,
                det \cap {"mean", "total", "zeros"})
+(* impose_unweighted(..., nullable=False): "avoid null weights by reweighting non-index weights".  When the   *)
+(* weight remaining outside the designated set is zero (but the total is not), the non-designated positions     *)
+(* are weighted equally before the usual normalisation: designated weights are zero, every other position       *)
+(* carries total/(N - |Z|), total weight and weighted mean are kept.  When something remains, nullable=False     *)
+(* changes nothing (same post-state as ImposeUnweighted).  The harness replays the call on every state      *)
+(* with the RescueWeights printed by Emit as the expected weights.                                              *)
+RescueWeights(w, Z) == [i \in 1..Len(w) |-> IF i \in Z THEN Zero
+                                              ELSE QDiv(Total(w), <<Len(w) - Cardinality(Z), 1>>)]
+NeedsRescue(w, Z) == Remaining(w, Z) = Zero /\ Total(w) # Zero /\ Z # 1..Len(w)
+(* the rescue keeps the total: TLC checks it on every emitted state (see RescueKeepsTotal below) *)
+RescueKeepsTotal == \A j \in 1..Len(Selections[N].unweighted) :
+                      LET Z == Selections[N].unweighted[j].zero IN
+                        NeedsRescue(weights, Z) => Total(RescueWeights(weights, Z)) = Total(weights)
+
 ImposeCollapse(j) ==
   LET sel == Selections[N].collapse[j]
       rcv(i) == IF \E p \in sel.arg : p[2] = i THEN (CHOOSE p \in sel.arg : p[2] = i)[1] ELSE i IN
@@ -467,6 +481,9 @@ Emit == PrintT(<<"@@", ToJson(IF Full /\ hist = << >>
                                     supp_ok |-> {j \in 1..Len(Selections[N].support) :
                                                    Remaining(weights, Selections[N].support[j].zero) # Zero},
                                     unw_ok |-> {j \in 1..Len(Selections[N].unweighted) :
-                                                   Remaining(weights, Selections[N].unweighted[j].zero) # Zero}]
+                                                   Remaining(weights, Selections[N].unweighted[j].zero) # Zero},
+                                    unw_rescue |-> {<<j, RescueWeights(weights, Selections[N].unweighted[j].zero)>> :
+                                                       j \in {k \in 1..Len(Selections[N].unweighted) :
+                                                                NeedsRescue(weights, Selections[N].unweighted[k].zero)}}]
                               ELSE [init |-> init, s |-> samples, w |-> weights, hist |-> hist, light |-> Cur, det |-> det])>>)
 =============================================================================
